@@ -215,17 +215,28 @@ func c29table(c *core.Ctx) {
 		}
 		var k int64 = -1
 		var cmdAlloc ssa.Value
+		// a helper shared by the writers: the command type is its parameter, one
+		// row per call site (type constant and request type taken from the arguments)
+		typeParam := -1
 		an.Instrs(fn, func(in ssa.Instruction) {
 			if st, ok := in.(*ssa.Store); ok {
 				if t, f, base, ok := an.FieldOf(st.Addr); ok && t == "Command" && f == "Type" {
 					if kk, ok := an.ConstInt(st.Val); ok {
 						k = kk
 						cmdAlloc = base
+					} else if p, isP := an.Unwrap(st.Val).(*ssa.Parameter); isP {
+						for i, q := range fn.Params {
+							if q == p {
+								typeParam = i
+								cmdAlloc = base
+								k = -2
+							}
+						}
 					}
 				}
 			}
 		})
-		if k < 0 {
+		if k == -1 {
 			continue
 		}
 		c.Touch(fn)
@@ -284,6 +295,54 @@ func c29table(c *core.Ctx) {
 		}
 		if row.how == "" {
 			c.Unk("C29.a", "TABLE", name+":writer", c.P.Pos(fn.Pos()), "cannot identify how SubCommand is produced")
+			continue
+		}
+		if typeParam >= 0 {
+			// which parameter carries the request (the argument of tryCompress / Marshal*)
+			reqParam := -1
+			if e, ok := sub.(*ssa.Extract); ok {
+				if call, ok := e.Tuple.(*ssa.Call); ok {
+					for _, a := range call.Common().Args {
+						for i, q := range fn.Params {
+							if an.Unwrap(a) == ssa.Value(q) && i != 0 {
+								reqParam = i
+							}
+						}
+					}
+				}
+			}
+			sites := 0
+			for _, caller := range pkgFuncs(sp) {
+				for _, ci := range an.AllCalls(caller, false) {
+					g := ci.Common().StaticCallee()
+					if g == nil || originOf(g) != originOf(fn) {
+						continue
+					}
+					args := ci.Common().Args
+					if typeParam >= len(args) {
+						continue
+					}
+					kk, isConst := an.ConstInt(an.Unwrap(args[typeParam]))
+					if !isConst {
+						c.Unk("C29.a", "TABLE", core.FuncName(caller)+":writer", c.P.Pos(ci.Pos()), "the command type handed to "+name+" is not a constant")
+						continue
+					}
+					r := row
+					r.fn = core.FuncName(caller)
+					if reqParam >= 0 && reqParam < len(args) {
+						a := args[reqParam]
+						if mi, isMI := a.(*ssa.MakeInterface); isMI {
+							a = mi.X
+						}
+						r.typ = namedOf(a.Type())
+					}
+					writers[kk] = r
+					sites++
+				}
+			}
+			if sites == 0 {
+				c.Unk("C29.a", "TABLE", name+":writer", c.P.Pos(fn.Pos()), "no call site of the shared command builder found")
+			}
 			continue
 		}
 		writers[k] = row
